@@ -145,13 +145,19 @@ func (cx *threadCtx) doHandle(c fsx.Call) fsx.Res {
 
 	switch op {
 	case "H.Write":
-		n, err := h.Write([]byte(c.Data))
+		data := []byte(c.Data)
+		n, err := h.Write(data)
+		fsx.Scribble(data)
+
 		r := er(err)
 		r.Val = fmt.Sprint(n)
 
 		return r
 	case "H.WriteAt":
-		n, err := h.WriteAt([]byte(c.Data), c.N)
+		data := []byte(c.Data)
+		n, err := h.WriteAt(data, c.N)
+		fsx.Scribble(data)
+
 		r := er(err)
 		r.Val = fmt.Sprint(n)
 
